@@ -12,6 +12,8 @@ pub struct World {
     /// values forced by solving path equations: atom node id -> value
     pub fixed: HashMap<u32, U>,
     pub cache: Vec<Option<U>>,
+    /// parity of the canonical representative min(v, q-v) of an element's discrete log
+    pub parity: HashMap<U, bool>,
 }
 
 fn mix(mut x: u64) -> u64 {
@@ -37,7 +39,7 @@ pub fn prf(seed: u64, words: &[u64]) -> U {
 
 impl World {
     pub fn new(seed: u64) -> World {
-        World { seed, fixed: HashMap::new(), cache: vec![] }
+        World { seed, fixed: HashMap::new(), cache: vec![], parity: HashMap::new() }
     }
 }
 
